@@ -25,6 +25,8 @@ type refDesc struct {
 	Rid   string `json:"rid"`
 	Ver   string `json:"ver"`
 	Text  string `json:"text"`
+	Ident string `json:"ident"`
+	Disp  string `json:"display"`
 }
 
 type caseRec struct {
